@@ -102,7 +102,9 @@ impl Drop for Helper {
 }
 
 fn worker(family: &str) {
-    std::panic::set_hook(Box::new(|_| {}));
+    if std::env::var("VH_PANIC_MSG").is_err() {
+        std::panic::set_hook(Box::new(|_| {}));
+    }
     let crash_only = std::env::var("VH_CRASH_ONLY").map_or(false, |v| v == "1");
     let reject_only = std::env::var("VH_REJECT_ONLY").map_or(false, |v| v == "1");
     let stdin = std::io::stdin();
